@@ -7,6 +7,9 @@ UNITS = {
 }
 # property -> clauses of the statement that no contract decides (reported in the evidence)
 UNDECIDED_CLAUSES = {
+    "C12": ["children present on both sides: only 'merged by the same function' (recursion verified for termination and frame), no path-level union statement",
+            "load_zone_configuration: directory listing sorted, hosts merged last into the root zone (tokio fs)",
+            "'each zone answers every question with the union': follows from C02's lookup being a function of these maps; not stated as a lemma"],
     "C03": ["stack bytes per frame (recursion depth is bounded by the termination measure: strictly decreasing 14-bit starts)",
             "'accepts exactly the well-formed messages / reads like an independent decoder' for names: spec-decoder equivalence (stage 2)"],
     "C04": ["whole-message decode(encode(m)) == m: needs a global invariant tying the pointer table to the byte image",
